@@ -165,9 +165,31 @@ def build(targets, timeout=900, jobs=8):
         return rc == 0, out
 
 
+def dep_closure(targets):
+    """All .v files under coq/ that the given .vo targets depend on (transitively), by coqdep."""
+    todo = [t[:-1] if t.endswith(".vo") else t for t in targets]
+    seen = []
+    while todo:
+        f = todo.pop()
+        if f in seen or not os.path.exists(os.path.join(COQ, f)):
+            continue
+        seen.append(f)
+        rc, out = _run(["coqdep", "-Q", ".", "Outrank", f], 120, cwd=COQ)
+        for m in re.finditer(r"(\S+)\.vo\b", out.split(":", 1)[1] if ":" in out else ""):
+            d = os.path.normpath(m.group(1) + ".v")
+            if not d.startswith(("/", "..")) and d not in seen:
+                todo.append(d)
+    return sorted(seen)
+
+
 def grep_forbidden(paths=None):
+    """Forbidden vernacular in the given files (relative to coq/), or in the whole development when None."""
     hits = []
-    for root, dirs, fs in os.walk(COQ):
+    if paths is not None:
+        walk = [(COQ, [], list(paths))]
+    else:
+        walk = os.walk(COQ)
+    for root, dirs, fs in walk:
         dirs[:] = [d for d in dirs if d not in ("cases",)]
         for f in fs:
             if not f.endswith(".v"):
@@ -477,8 +499,10 @@ def standard_proof_phase(run, targets, module, theorems, allowed=frozenset()):
     if not ok:
         run.violation("broken-obligation", "build:" + ",".join(targets), found_input=False, extra=log[-3000:])
         return False
-    hits = grep_forbidden()
-    run.oblige("no-forbidden-vernacular", not hits, "; ".join(hits[:10]))
+    files = dep_closure(targets)
+    hits = grep_forbidden(files)
+    run.cov["proof_files"] = files
+    run.oblige("no-forbidden-vernacular in %d files" % len(files), bool(files) and not hits, "; ".join(hits[:10]))
     if hits:
         run.violation("broken-obligation", "forbidden-vernacular", found_input=False, extra=hits[:20])
         return False
